@@ -65,6 +65,8 @@ func (w *World) resolve(cs *clientState, op Op) uint64 {
 		return cs.lastHdr
 	case "hdrplus":
 		return cs.lastHdr + uint64(op.Rev.N)
+	case "listhdrplus":
+		return cs.lastListHdr + uint64(op.Rev.N)
 	case "hdrminus":
 		if cs.lastHdr > uint64(op.Rev.N) {
 			return cs.lastHdr - uint64(op.Rev.N)
@@ -122,6 +124,16 @@ func (w *World) exec(cs *clientState, idx int, op Op) *Rec {
 		// wait until the node has resolved everything the client has seen
 		target := cs.maxSeen
 		s.YieldUntil("client.waitcom", func() bool { return w.committed(op.Node) >= target })
+		return nil
+	case "takeover":
+		// node op.Node becomes the serving node: it starts from the revision node op.W had reached
+		// (what a restart or fail-over amounts to for a stateless node); the old node stops
+		if op.Node < len(w.Nodes) && op.W < len(w.Nodes) {
+			rev := w.committed(op.W)
+			s.CrashNode(op.W)
+			w.Nodes[op.Node].B.SetCurrentRevision(rev)
+			s.Note("takeover node %d at %d", op.Node, rev)
+		}
 		return nil
 	case "crash":
 		// the node stops after this request: its goroutines are never resumed, its engine calls never return
@@ -242,6 +254,7 @@ func (w *World) exec(cs *clientState, idx int, op Op) *Rec {
 			} else {
 				r.OK, r.Hdr, r.More = true, resp.Header.GetRevision(), resp.More
 				cs.seeHdr(r.Hdr)
+				cs.lastListHdr = r.Hdr
 				for _, kv := range resp.Kvs {
 					r.KVs = append(r.KVs, *kvOf(kv))
 					if r.RevAbs == 0 {
